@@ -16,11 +16,13 @@ import (
 // C15.5: a result that may be nil is read only where it cannot be.
 //
 // Sources (a local variable every assignment of which is one of these):
-//   S1  v, err := f(...)        v is valid when err == nil (the Go convention; for an in-repo f the
-//                               convention is checked on f's own returns, not assumed)
-//   S2  v := f(...)             f may return nil by contract (the table below, or an in-repo f with a
-//                               `return nil`)
-//   S3  v, ok := x.(*T)         v is nil when !ok
+//
+//	S1  v, err := f(...)        v is valid when err == nil (the Go convention; for an in-repo f the
+//	                            convention is checked on f's own returns, not assumed)
+//	S2  v := f(...)             f may return nil by contract (the table below, or an in-repo f with a
+//	                            `return nil`)
+//	S3  v, ok := x.(*T)         v is nil when !ok
+//
 // Sinks: a dereference of v, a method call on an interface-typed v, and v handed to a callee that
 // reads it without a test (an in-repo callee is looked into, any other callee is taken to read it).
 // Obligation: the facts at the sink imply v != nil.
@@ -78,10 +80,11 @@ func inRepoPkg(pp string) bool {
 }
 
 type validCtx struct {
-	c        *Ctx
-	summary  map[*types.Func]int // 0 unknown, 1 in progress, 2 proven, 3 not proven
-	needs    map[string]int      // callee|param -> 0 unknown, 1 in progress, 2 needs non-nil, 3 tolerant
+	c          *Ctx
+	summary    map[*types.Func]int // 0 unknown, 1 in progress, 2 proven, 3 not proven
+	needs      map[string]int      // callee|param -> 0 unknown, 1 in progress, 2 needs non-nil, 3 tolerant
 	returnsNil map[*types.Func]int
+	weak       map[*types.Func]bool
 }
 
 // sourcesOf collects the judged variables of one function body with the fact that holds after each source.
@@ -149,7 +152,9 @@ func (vc *validCtx) sourcesOf(fi *load.FuncInfo) (map[types.Object][]nilSrc, map
 								}
 								rev, reviewed := reviewedSources[vc.short(fi)+"|"+srcCalleeName(f, call)]
 								if reviewed && rev.fact == "convention" {
-									conv = true
+									// the part of the convention that is mechanical is still decided: wherever the producer
+									// returns a nil literal as its first result, its error is non-nil
+									conv = f != nil && vc.nilReturnsCarryError(f.Origin())
 								}
 								if reviewed && rev.fact == "non-nil" {
 									fact = gf.FNotNil(gf.Var(v))
@@ -317,6 +322,50 @@ func (vc *validCtx) withFacts(fi *load.FuncInfo, srcs map[types.Object][]nilSrc)
 	an := fn.Analyze(nil)
 	fn.PostFacts = saved
 	return fn, an
+}
+
+// nilReturnsCarryError: at every return of f whose first result is the nil literal, the facts give a non-nil error
+// (or the error is built on the spot). One obligation per such return.
+func (vc *validCtx) nilReturnsCarryError(f *types.Func) bool {
+	if r, ok := vc.weak[f]; ok {
+		return r
+	}
+	c := vc.c
+	fi := c.P.FuncInfoOf(f)
+	if fi == nil || fi.Decl.Body == nil {
+		return false
+	}
+	info := fi.Pkg.TypesInfo
+	fn, an := c.Analysis(fi)
+	all := true
+	n := 0
+	ownNodes(fi.Decl.Body, func(nd ast.Node) {
+		r, ok := nd.(*ast.ReturnStmt)
+		if !ok || len(r.Results) < 2 || !isNilExpr(info, r.Results[0]) {
+			return
+		}
+		st := an.StateBefore(r)
+		if !st.Reachable() {
+			return
+		}
+		n++
+		name := fmt.Sprintf("%s: return #%d with a nil first result", vc.short(fi), n)
+		last := ast.Unparen(r.Results[len(r.Results)-1])
+		if ec, isCall := last.(*ast.CallExpr); isCall {
+			if ef := gf.StaticCallee(info, ec); ef != nil && (ef.FullName() == "fmt.Errorf" || ef.FullName() == "errors.New") {
+				c.OK("C15.5-nil-result-comes-with-an-error", name, r.Pos(), "the error is built on the spot")
+				return
+			}
+		}
+		if g, wit := st.Implies(gf.FNotNil(fn.Term(last))); g {
+			c.OK("C15.5-nil-result-comes-with-an-error", name, r.Pos(), "facts give a non-nil error")
+		} else {
+			all = false
+			c.Bad("C15.5-nil-result-comes-with-an-error", name, r.Pos(), "a nil result is returned without a non-nil error: the caller takes the call for successful and reads the result; facts: "+clip(wit, 300))
+		}
+	})
+	vc.weak[f] = all
+	return all
 }
 
 // convention: every return of the in-repo function f gives "first result != nil or error != nil".
@@ -563,7 +612,7 @@ func (vc *validCtx) needsNonNil0(f *types.Func, i int, depth int, strict bool) b
 }
 
 func (c *Ctx) validResults(scope []*load.FuncInfo) {
-	vc := &validCtx{c: c, summary: map[*types.Func]int{}, needs: map[string]int{}, returnsNil: map[*types.Func]int{}}
+	vc := &validCtx{c: c, summary: map[*types.Func]int{}, needs: map[string]int{}, returnsNil: map[*types.Func]int{}, weak: map[*types.Func]bool{}}
 	nSrc, nSink, nVars := 0, 0, 0
 	for _, fi := range scope {
 		srcs, _ := vc.sourcesOf(fi)
